@@ -445,7 +445,11 @@ class Sched:
                 if kind == "T":
                     self.now = max(self.now, obj.deadline)
                     obj.fired = True
-                    self.trace.append(("T", obj.full, obj.label))
+                    # 4th field: did it fire while a parent thread was spawning workers (inside
+                    # the region the processes-management lock protects)?
+                    self.trace.append(("T", obj.full, obj.label,
+                                       self._parent_in("_adjust_process_count"), self.now,
+                                       obj.proc.pid))
                     return obj
                 if kind == "K":
                     self.trace.append(("K", obj.label, stack_sig_proc(self, obj),
